@@ -246,6 +246,16 @@ CHECK_DEADLOCK FALSE
             traces.append(replay(hist, rnd.random() < 0.5, 6, i, pooling=False))
         finally:
             SHARED_ADDR = False
+    # targeted: a node is evicted by failover, the cluster is scaled in without it, time passes beyond dead_timeout,
+    # traffic goes on -- the decommissioned node must not come back through the dead-server check
+    for vpc in (True, False):
+        for (a, b) in (([1, 2, 3], [1, 2]), ([1, 2, 3, 4], [2, 4]), ([2, 1], [1]), ([1, 2, 3], [3])):
+            for victim in a:
+                if victim in b:
+                    continue
+                hist = [["reconf", a], ["evict", victim], ["reconf", b], ["revive", 0], ["traffic", b[0]], ["revive", 0], ["reconf", b],
+                        ["revive", 0]]
+                traces.append(replay(hist, vpc, 6, len(traces), pooling=False))
     acc, rej, st, _ = tlc.validate_traces("DiscoveryTrace", [{"h": t["h"], "ev": t["ev"]} for t in traces], chunk=3000)
     rep.set("traces_validated_against_impl", len(traces))
     rep.set("trace_states", st)
